@@ -606,3 +606,25 @@ ADD = {
 for _pid, _d in ADD.items():
     for _k, _v in _d.items():
         PROPS[_pid][_k] = (PROPS[_pid].get(_k, "") + " " + _v).strip()
+
+# Round-4 strengthening (appended like the texts above).
+ADD4 = {
+    "C01": dict(rule="Suite c01l: requests that cannot be read (malformed, HTTP/1.0, oversized head, bad cookie, bad length, truncated) and ordinary ones, on the wire, while the application's logger has stopped: the error response must still arrive."),
+    "C02": dict(rule="20 commonly interpreted field names (Host, Connection, X-Forwarded-*, Forwarded, Origin, Upgrade, Range, ...) x 14 adversarial values x 4 targets (the target alone decides path and query); heads with 90..260 fields."),
+    "C04": dict(rule="Handler answers with file-backed bodies (intact, shorter / longer than declared, empty, missing, 70 000 bytes)."),
+    "C06": dict(rule="Suite c14 (HeaderList operations, exhaustive small scopes) is part of this check: the order of a response's fields is the order of its header list."),
+    "C07": dict(rule="(5) the writer fails at every offset 0..95 of a three-chunk encoding, under three short-write schedules; every third failure is a one-off ErrorKind::Interrupted."),
+    "C08": dict(rule="Event-stream family whose second event exceeds the encoder's read slice (source failure after the first chunk); c08d also after an interim 100 Continue (rr;bv / rr;bf / rr;wc on an Expect request)."),
+    "C10": dict(rule="busy<N> sends a third of the bytes after the pool is saturated; L1:cut<N>: the same abandonment while the application's logger is stalled."),
+    "C11": dict(rule="Suite c07 (the chunk encoder under short writes, Pending, writer failures at every offset) is part of this check."),
+    "C12": dict(rule="c12b: token sets of 1025..70000 units (all taken, up to all given back at once, as many taken again); c12e also with the logger's receiver gone (dead) and with a 4.7 s (thorough: 11 s) episode of failing accepts."),
+    "C13": dict(rule="Phases with an L marker run with the application's logger stalled (one-slot queue full, never drained)."),
+    "C14": dict(rule="c14r: also repeated Cookie fields among the consumed fields, and heads with 99..300 fields."),
+    "C16": dict(rule="c16f: the three rendering funnels (SystemTime::iso8601_utc, cookie Expires, log-line time) on 16 boundary instants x 7 sub-second parts and 1500 (20000) random instants; the log-line funnel below year 2554 (documented u64-nanosecond limit)."),
+    "C17": dict(rule="Suite c19 (the file log writer: whole lines on disk across rotations, restarts and backlogs) is part of this check."),
+    "C19": dict(rule="Every fourth event carries a timestamp of its own two hours in the past."),
+    "C20": dict(rule="c20w also: requests with Connection: keep-alive answered 5xx; truncated requests after which the client half-closes and keeps reading."),
+}
+for _pid, _d in ADD4.items():
+    for _k, _v in _d.items():
+        PROPS[_pid][_k] = (PROPS[_pid].get(_k, "") + " " + _v).strip()
